@@ -1,5 +1,6 @@
 import EmmetProofs.SnipTermination
 import EmmetProofs.ResolveTerminates
+import EmmetProofs.Written
 /-! # C14 — snippet resolution ends for every table (abstract resolver: nesting counter + structural recursion over the forest)
 
 `resolveN tbl parse n` resolves a node through the table with at most `n` nested snippets; `walkWith` applies it over a
@@ -18,5 +19,15 @@ counter. The abbreviation parser's own fuel is a hypothesis here; for tokenizer 
 theorem C14_terminates_model (o : T.Options)
     (hp : ∀ sn, T.parseAbbr sn false { text := .none, variables := some o.variables, maxRepeat := o.maxRepeatSnake } ≠ .error .fuel)
     (nodes : List T.ANode) : T.resolveSnippets o nodes ≠ .error .fuel := T.resolve_terminates o hp nodes
+
+/-- no alias name is claimed by two entries of the REGENERATED html / xsl / pug snippet files as written (`a|b: definition`): every
+written name selects its own entry's definition — the flattened table hides nothing -/
+theorem C14_names_distinct :
+    ((Snip.flatten T.Gen.markupWritten).map (·.1)).Nodup ∧ ((Snip.flatten T.Gen.xslWritten).map (·.1)).Nodup
+      ∧ ((Snip.flatten T.Gen.pugWritten).map (·.1)).Nodup :=
+  ⟨Snip.distinct_spec _ Snip.markup_distinct, Snip.distinct_spec _ Snip.xsl_distinct, Snip.distinct_spec _ Snip.pug_distinct⟩
+
+/-- the names of the table the model resolves through are exactly the written names, in order -/
+theorem C14_names_from_source : (Snip.flatten T.Gen.markupWritten).map (·.1) = T.Gen.markupSnippets.map (·.1) := Snip.markup_names
 
 end EmmetProps
